@@ -12,7 +12,7 @@ RULE = ('cases = mpf function x destination precision and each operand precision
         'exact rational result: |r - exact| < 2^(2-p)|exact|, r = exact when operands and exact value fit in p bits, exact family equal; plus bit-exact mpf_mul; non-trivial = distinct case line')
 EXPLANATION = ('Properties_C13.v proves the accuracy bound for the bit-exact model of mpf_mul for all operands and precisions, and the soundness of the certificate arithmetic; '
                'for every other function the property itself is evaluated by the model on the library\'s result with exact rational arithmetic')
-ASSUMPTIONS = ['only mpf_mul and mpf_add (operands of equal sign) have bit-exact models with theorems; sub/div/sqrt/set_q/set_d/set_str and the _ui forms are decided per call by the certified property evaluation (exact rational arithmetic in the extracted model)',
+ASSUMPTIONS = ['mpf_mul, mpf_add and mpf_sub have bit-exact models with theorems; div/sqrt/set_q/set_d/set_str and the _ui forms are decided per call by the certified property evaluation (exact rational arithmetic in the extracted model)',
                'mpf_get_str digit accuracy is checked per call by Python rational arithmetic in addition (supporting, not part of the model)']
 TIMEOUT = 1500
 
@@ -135,6 +135,27 @@ def cases(ctx, tier):
         if rng.random() < 0.05: bm = 0
         if rng.random() < 0.05: am = 0
         out.append(('mpf_add_exact %x %s %s %s %s' % (prec, hx(sgn * am), hx(ae), hx(sgn * bm), hx(be)), 'mpf_add-bitexact'))
+        # mpf_sub: equal leading limbs, x+1 / x with runs of 00 / ff limbs below (near-total cancellation), operands longer than the
+        # destination, every layout; a quarter with different signs (the mpf_add path)
+        B64 = 1 << 64
+        k = rng.random()
+        if k < 0.45:
+            lead = [rng.getrandbits(64) | 1 for _ in range(rng.randrange(0, 3))]
+            x = rng.getrandbits(64) | 2
+            tail_u = [rng.choice([0, 0, 0, rng.getrandbits(64)]) for _ in range(rng.randrange(0, prec + 3))]
+            tail_v = [rng.choice([B64 - 1, B64 - 1, B64 - 1, rng.getrandbits(64)]) for _ in range(rng.randrange(0, prec + 3))]
+            ul = lead + [x] + tail_u; vl = lead + [x - 1 if rng.random() < 0.7 else x] + tail_v
+            sm = 0
+            for w in ul: sm = sm * B64 + w
+            tm = 0
+            for w in vl: tm = tm * B64 + w
+            se = rng.randrange(-5, 5); te = se - rng.choice([0, 0, 0, 1])
+            if rng.random() < 0.5: sm, tm, se, te = tm, sm, te, se
+        else:
+            sm, se, tm, te = am, ae, bm, be
+        s1 = rng.choice([1, -1]); s2 = s1 if rng.random() < 0.75 else -s1
+        while sm and sm % B64 == 0 and rng.random() < 0.5: sm //= B64
+        out.append(('mpf_sub_exact %x %s %s %s %s' % (prec, hx(s1 * sm), hx(se), hx(s2 * tm), hx(te)), 'mpf_sub-bitexact'))
     return out
 
 def extra(ctx):
